@@ -235,6 +235,7 @@ func runC07(c *core.Ctx) error {
 	checkDeferredReleaseInLoop(c, r6, irProg, pkgGen, pkgParser, pkgJS)
 	checkRecursionWalkComplete(c, r6, irProg)
 	checkMemoKeyIsArgument(c, r6, irProg, pkgParser, pkgJS, pkgGen)
+	checkSkipMemoKeyCoversInputs(c, r6, irProg, skipMemoReviewed, pkgParser, pkgJS, pkgGen, pkgIR)
 	checkInsertLookupKeyAgreement(c, r6, irProg, pkgParser, pkgJS, pkgGen, pkgIR)
 	checkResetBufferNotRetained(c, r6, irProg, pkgParser, pkgJS, pkgGen, pkgIR)
 	return nil
